@@ -41,10 +41,10 @@ def leq(e, g, close=False):
             return bool(np.datetime64(g[1]) == np.array(e[2], dtype=f'M8[{e[1]}]'))
         except Exception:
             return False
-    if e[0] == 'td64' and g[0] == 'other' and g[1] == 'timedelta' and e[2] != canon.NAT:
-        # NumPy's object conversion presents timedelta64 as datetime.timedelta (canon has no kind for it)
+    if e[0] == 'td64' and g[0] == 'timedelta' and e[2] != canon.NAT:
+        # NumPy's object conversion presents timedelta64 as datetime.timedelta
         try:
-            td = eval(g[2], {'__builtins__': {}}, {'datetime': datetime})
+            td = datetime.timedelta(days=g[1][0], seconds=g[1][1], microseconds=g[1][2])
             return bool(np.timedelta64(td) == np.timedelta64(e[2], e[1]))
         except Exception:
             return False
@@ -113,7 +113,7 @@ def _hkey(x):
 _SELF_UNEQUAL = {('float', canon.NAN), ('dt64', 'D', canon.NAT), ('dt64', 's', canon.NAT), ('dt64', 'ns', canon.NAT),
                  ('dt64', 'M', canon.NAT), ('dt64', 'Y', canon.NAT), ('td64', 'D', canon.NAT), ('td64', 's', canon.NAT)}
 
-_ALLK = {'None', 'bool', 'int', 'float', 'complex', 'str', 'bytes', 'dt64', 'td64', 'datetime', 'date', 'tuple', 'list', 'array',
+_ALLK = {'None', 'bool', 'int', 'float', 'complex', 'str', 'bytes', 'dt64', 'td64', 'datetime', 'date', 'timedelta', 'tuple', 'list', 'array',
          'frozenset', 'other'}
 
 
